@@ -105,7 +105,7 @@ func genC16(t *rapid.T) C16Case {
 	c := C16Case{}
 	np := rapid.IntRange(0, 3).Draw(t, "nprelude")
 	for i := 0; i < np; i++ {
-		c.Prelude = append(c.Prelude, C16Pre{K: rapid.SampledFrom([]string{"delegate", "undelegate", "undelegate", "undelegate-all", "setw"}).Draw(t, "pk"),
+		c.Prelude = append(c.Prelude, C16Pre{K: rapid.SampledFrom([]string{"delegate", "undelegate", "undelegate", "undelegate-all", "setw", "slash"}).Draw(t, "pk"),
 			Val: rapid.IntRange(0, 3).Draw(t, "pval"), Amt: rapid.SampledFrom([]string{"1000", "250000", "1000000"}).Draw(t, "pamt")})
 	}
 	c.Method = rapid.SampledFrom([]string{"delegate", "delegate", "undelegate", "undelegate", "redelegate", "redelegate", "cancelUnbonding", "withdraw", "setWithdraw", "createValidator", "createValidator", "withdrawCommission"}).Draw(t, "method")
@@ -123,6 +123,14 @@ func genC16(t *rapid.T) C16Case {
 	c.To = rapid.SampledFrom([]string{"w", "third", "signer"}).Draw(t, "to")
 	c.Signer = rapid.SampledFrom([]string{"", "", "vesting", "vesting", "operator"}).Draw(t, "signer")
 	c.Create = rapid.SampledFrom([]int{0, 0, 0, 1, 2, 3, 4, 5}).Draw(t, "create")
+	if rapid.IntRange(0, 5).Draw(t, "slashed-destination-scenario") == 0 {
+		// (query test) a redelegation whose destination validator is slashed while the entry is pending
+		v := rapid.IntRange(0, 1).Draw(t, "sd-val")
+		c.Prelude = []C16Pre{{K: "setw", Val: v, Amt: rapid.SampledFrom([]string{"1000", "250000"}).Draw(t, "sd-amt")}, {K: "slash", Val: v + 1}}
+		if rapid.Bool().Draw(t, "sd-second") {
+			c.Prelude = append(c.Prelude, C16Pre{K: "undelegate", Val: v + 1, Amt: "1000"})
+		}
+	}
 	if rapid.IntRange(0, 9).Draw(t, "emptied-validator-scenario") == 0 {
 		// the operator of the validator without other delegators withdraws everything; the record stays (no tokens, no
 		// shares) and is then the target of the compared call
@@ -361,10 +369,22 @@ func runC16Query(st *ev.Stats, c C16Case) string {
 	n.BeginBlock(chain.BlockIn{})
 	app := n.App
 	vals := pxVals(n)
+	slashed := false
 	for _, p := range c.Prelude {
 		v := vals[p.Val%len(vals)].GetOperator()
 		coin := sdk.NewCoin(chain.Denom, sdkmath.NewIntFromBigInt(milli(p.Amt)))
 		num, seq := txb.AccInfo(n.Ctx(), app, pxSigner.Addr)
+		if p.K == "slash" {
+			// the validator is slashed (keeper level, as the evidence handler would): exchange rates move away from 1,
+			// so balances derived from shares differ from the amounts originally moved
+			if sv, ok := app.StakingKeeper.GetValidator(n.Ctx(), v); ok && sv.IsBonded() {
+				cons, err := sv.GetConsAddr()
+				must(err)
+				app.StakingKeeper.Slash(n.Ctx(), cons, n.Header.Height, sv.GetConsensusPower(app.StakingKeeper.PowerReduction(n.Ctx())), sdk.NewDecWithPrec(5, 2))
+				slashed = true
+			}
+			continue
+		}
 		var msg sdk.Msg = stakingtypes.NewMsgDelegate(pxSigner.Addr, v, coin)
 		switch p.K {
 		case "undelegate":
@@ -468,7 +488,14 @@ func runC16Query(st *ev.Stats, c C16Case) string {
 					return fail("query-failed:staking.redelegations", err.Error())
 				}
 				gots := fmt.Sprint(outs[0])
+				dstNow, _ := app.StakingKeeper.GetValidator(ctx, dst.GetOperator())
 				for _, e := range red.Entries {
+					// the paginated form also carries the entry's current balance: what the destination shares are worth now
+					if bal := dstNow.TokensFromShares(e.SharesDst).TruncateInt(); !containsAll(gots, bal.String()) {
+						return fail("query-differs:staking.redelegations", fmt.Sprintf("redelegations(%s -> %s): current balance %s of entry %+v not reported: %s", src.OperatorAddress, dst.OperatorAddress, bal, e, trunc(gots)))
+					} else if !bal.Equal(e.InitialBalance) {
+						st.Class("redelegation-balance-differs-from-initial")
+					}
 					if !containsAll(gots, e.InitialBalance.String(), fmt.Sprint(e.CreationHeight)) {
 						return fail("query-differs:staking.redelegations", fmt.Sprintf("redelegations(%s -> %s) lacks entry %+v: %s", src.OperatorAddress, dst.OperatorAddress, e, trunc(gots)))
 					}
@@ -480,6 +507,9 @@ func runC16Query(st *ev.Stats, c C16Case) string {
 	}
 	if nRed > 0 {
 		st.Class("redelegation-entries-compared")
+	}
+	if slashed {
+		st.Class("with-slashed-validator")
 	}
 	// validators(status, page): every validator of that status with its tokens, nobody else
 	for _, status := range []string{stakingtypes.BondStatusBonded, stakingtypes.BondStatusUnbonding, stakingtypes.BondStatusUnbonded} {
